@@ -479,3 +479,41 @@ func jsonCoerce(k string) string {
 	}
 	return b.String()
 }
+
+// TestC14Prefix enumerates EVERY key length in a range: a key of that length and a longer key
+// starting with it are stored in both orders, read back, listed and deleted. Boundary lengths
+// of the on-disk naming (whatever the fragment size is) cannot hide between sampled lengths.
+func TestC14Prefix(t *testing.T) {
+	maxLen := 720
+	if thorough() {
+		maxLen = 1600
+	}
+	seed := envInt("VERIF_SEED", 1)
+	RunEnum(t, checkC14, func(yield func(*world.Scenario) bool) {
+		for _, backend := range []string{"fs", "fsenc"} {
+			if backend == "fsenc" && !thorough() && seed%2 == 0 {
+				continue
+			}
+			stem := c14Stems[seed%len(c14Stems)]
+			for n := 1; n <= maxLen; n++ {
+				for _, ext := range []int{1, 37, 300} {
+					k1 := append([]byte(nil), stem[:n]...)
+					k2 := append([]byte(nil), stem[:n+ext]...)
+					first, second := k1, k2
+					if (n+ext+seed)%2 == 0 {
+						first, second = k2, k1
+					}
+					sc := &world.Scenario{Prop: "C14", Store: &world.StoreCase{Backend: backend, Ops: []world.StoreOpSpec{
+						{Op: "set", Key: first, ValLen: 5, ValSeed: 1}, {Op: "set", Key: second, ValLen: 7, ValSeed: 2},
+						{Op: "get", Key: first}, {Op: "get", Key: second}, {Op: "keys"},
+						{Op: "delete", Key: first}, {Op: "get", Key: second}, {Op: "set", Key: first, ValLen: 9, ValSeed: 3},
+						{Op: "delete", Key: second}, {Op: "get", Key: first}, {Op: "keys", Key: first},
+					}}}
+					if !yield(sc) {
+						return
+					}
+				}
+			}
+		}
+	})
+}
